@@ -11,7 +11,9 @@ RULE = ("run: the full product 6 entry points x 16 type shapes ({ZST,sized}x{Dro
         "sample_size {0,1,2,3,5,17} x sample_count {0,1,3,7} x threads {1,2,3,5} x {bench,test} (18432 cases; input "
         "counters and the by-value function's drop/forget choice drawn at random), plus a counter-dense random stream; "
         "panic: a panic injected at every call index / generator index of every thread for small configurations "
-        "(quick: sampled; thorough: exhaustive). Instrumented values carry thread<<32|ordinal; generator, counter "
+        "(quick: sampled; thorough: exhaustive); tuned: no sample_size, a call costs 7..101 virtual ticks so that tuning takes "
+        "2-5 rounds of sizes 1,2,4,..., 0-4 input counters of different kinds, threads 1-3, by-value and by-ref entry points; "
+        "the model is driven with the round sizes read from thread 0's recorded log. Instrumented values carry thread<<32|ordinal; generator, counter "
         "closures, benchmarked closure and Drop impls append to the hook's event log, which also holds every clock "
         "read, barrier wait, tally clear and snapshot. Per-thread logs must equal the model's; the extracted sb_thread / "
         "sb_nodouble are evaluated on the implementation's logs. Non-trivial = at least one benchmarked call happened.")
@@ -86,12 +88,20 @@ def streams(tier, rng):
         dense.append(S.case(e, rng.choice(S.SHAPES), cs, rng.randrange(2), rng.choice([1, 2, 3, 4, 5, 8, 17, 33]),
                             rng.choice([1, 2, 3, 4, 7, 10]), rng.choice([1, 2, 3, 4, 5, 8]), int(rng.random() < 0.2)))
     pan = panic_cases(tier, rng)
+    tuned = [S.rand_tuned(rng) for _ in range(1200 if tier == "quick" else 20000)]
     return [
         Stream("corpus-run", "run", _corpus("run"), nontrivial=nontrivial),
         Stream("corpus-panic", "panic", _corpus("panic"), nontrivial=nontrivial),
         Stream("run-full-product", "run", full, nontrivial=nontrivial, hist=S.hist(full)),
         Stream("run-counter-dense", "run", dense, nontrivial=nontrivial, hist=S.hist(dense)),
         Stream("panic-injection", "panic", pan, nontrivial=nontrivial, hist=S.hist(pan)),
+        # tuned sample size: rounds of sizes 1, 2, 4, ... (taken from the recorded history) with the same
+        # counters in every round
+        Stream("corpus-tuned", "tuned", _corpus("tuned"), nontrivial=nontrivial, model_input=lambda c, i: c + "\t" + i),
+        Stream("tuned-sample-size", "tuned", tuned, nontrivial=nontrivial, model_input=lambda c, i: c + "\t" + i,
+               hist=S.hist(tuned)),
+        Stream("tuned-sample-size-release", "tuned", tuned[::2], nontrivial=nontrivial,
+               model_input=lambda c, i: c + "\t" + i, release=True),
         # optimised build: the ZST fast path, forget/zeroed and black_box are what an optimiser may touch
         Stream("run-full-product-release", "run", full if tier != "quick" else full[::3], nontrivial=nontrivial, release=True),
         Stream("panic-injection-release", "panic", pan if tier != "quick" else pan[::2], nontrivial=nontrivial, release=True),
@@ -115,6 +125,8 @@ def shrink(item, rerun):
         for k, cands in (("th", [1, 2, 3]), ("sc", [1, 2, 3]), ("ss", [1, 2, 3]), ("cs", ["0000"]), ("test", [0])):
             cur = S.field(case, k)
             for v in cands:
+                if cur is None or cur == "-":
+                    continue
                 if str(v) == cur or (k in ("th", "sc", "ss") and int(v) >= int(cur)):
                     continue
                 if cur in [str(x) for x in cands] and [str(x) for x in cands].index(cur) < cands.index(v):
